@@ -48,6 +48,43 @@ func extractPathParams() (string, error) {
 	}
 	pattern, method, limit, kept := "", "", "", ""
 	var loops, calls []string
+	// names do not matter: the variable that receives the result of the regexp call is `matches`, the element variable
+	// of the loop over it is `match`, whatever the source calls them
+	resultVar, elemVar := "", ""
+	isRegexCall := func(e ast.Expr) bool {
+		call, ok := e.(*ast.CallExpr)
+		if !ok {
+			return false
+		}
+		sel, ok := call.Fun.(*ast.SelectorExpr)
+		if !ok {
+			return false
+		}
+		id, ok := sel.X.(*ast.Ident)
+		if !ok {
+			return false
+		}
+		_, ok = regexes[id.Name]
+		return ok
+	}
+	ast.Inspect(fd.Body, func(n ast.Node) bool {
+		if as, ok := n.(*ast.AssignStmt); ok && len(as.Lhs) == 1 && len(as.Rhs) == 1 && isRegexCall(as.Rhs[0]) {
+			if id, ok := as.Lhs[0].(*ast.Ident); ok {
+				resultVar = id.Name
+			}
+		}
+		return true
+	})
+	ast.Inspect(fd.Body, func(n ast.Node) bool {
+		if rs, ok := n.(*ast.RangeStmt); ok {
+			if id, ok := rs.X.(*ast.Ident); ok && resultVar != "" && id.Name == resultVar {
+				if v, ok := rs.Value.(*ast.Ident); ok {
+					elemVar = v.Name
+				}
+			}
+		}
+		return true
+	})
 	ast.Inspect(fd.Body, func(n ast.Node) bool {
 		switch x := n.(type) {
 		case *ast.CallExpr:
@@ -63,13 +100,17 @@ func extractPathParams() (string, error) {
 			}
 			calls = append(calls, exprString(x.Fun))
 		case *ast.IndexExpr:
-			if id, ok := x.X.(*ast.Ident); ok && id.Name == "match" {
+			if id, ok := x.X.(*ast.Ident); ok && elemVar != "" && id.Name == elemVar {
 				kept = srcOf(x.Index)
 			}
 		case *ast.ForStmt:
 			loops = append(loops, "for")
 		case *ast.RangeStmt:
-			loops = append(loops, "range "+srcOf(x.X))
+			if id, ok := x.X.(*ast.Ident); ok && resultVar != "" && id.Name == resultVar {
+				loops = append(loops, "range matches")
+			} else {
+				loops = append(loops, "range "+srcOf(x.X))
+			}
 		}
 		return true
 	})
